@@ -10,7 +10,9 @@ for d in sorted(os.listdir(os.path.join(V, "seeded"))):
     m = json.load(open(mp))
     r = json.load(open(rp)) if os.path.exists(rp) else None
     what = " ".join(m.get("summary", "").split())[:150]
-    if r is None:
+    if m.get("retired"):
+        out, keys, first = "retired: " + m["retired"][:160], "", ""
+    elif r is None:
         out, keys, first = "not run", "", ""
     else:
         ck = list(r.get("checks", {}).items())
